@@ -34,6 +34,7 @@ def run(ctx):
     ctx.do(rule_forward)
     ctx.do(rule_version_in_scope)
     ctx.do(rule_version_constants)
+    ctx.do(rule_only_21_mechanisms)
     ctx.do(rule_detect)
     from .hidden_state import rule_no_hidden_state
     ctx.do(rule_no_hidden_state, "C14.history-independence")
@@ -242,6 +243,71 @@ def rule_version_constants(ctx, rule_id="C14.version-constants"):
                       expected="a guard on the version in force (isinstance(self, _STIXBase20/21), spec_version ==)", found=short(call))
     if n < 2:
         raise AnalysisError("fewer than 2 version constants in version-agnostic code found (%d)" % n)
+
+
+ONLY_21 = ("extension-definition--", "toplevel-property-extension", "property-extension", "new-sdo", "new-sco", "new-sro")
+ONLY_21_OK = {
+    "stix2.custom::_custom_extension_builder":
+        "acts on the `extension_type` attribute the USER's class defines: the 2.1 notion is invoked by the caller, not inferred "
+        "from content",
+}
+
+
+def _version_test(txt):
+    return any(m in txt for m in ("_STIXBase20", "_STIXBase21", "spec_version", "stix_version", "version ==", "version !=",
+                                  "version in", "version not in"))
+
+
+def rule_only_21_mechanisms(ctx, rule_id="C14.version-constants"):
+    """Extension definitions (keys `extension-definition--<id>`, the extension types new-sdo / new-sco / new-sro /
+    property-extension / toplevel-property-extension) exist in STIX 2.1 only.  Code that serves both versions and DECIDES
+    something by them must do so under a test of the version in force; otherwise content handled as 2.0 -- because the caller
+    named version='2.0', or because the object is a 2.0 object -- gets 2.1's escape hatches: an unknown extension key is kept
+    uncleaned by a strict 2.0 constructor, an unknown type with a 'new-sdo' entry passes a strict parse with version='2.0'."""
+    run = ctx.run
+    prog = ctx.prog
+    n = 0
+    for fi in sorted(prog.functions.values(), key=lambda f: f.id):
+        if fi.module.relpath.startswith("stix2/test") or module_version(fi.module) is not None or "workbench" in fi.module.name:
+            continue
+        k_ = 0
+        for iff in [x for x in body_walk(fi.node) if isinstance(x, (ast.If, ast.IfExp))]:
+            marks = sorted({c_.value for c_ in ast.walk(iff.test) if isinstance(c_, ast.Constant) and c_.value in ONLY_21})
+            if not marks:
+                continue
+            n += 1
+            k_ += 1
+            c = key(fi.module.relpath, fi.qualname, "2.1-only-mechanism-under-a-version-test#%d" % k_)
+            if fi.id in ONLY_21_OK:
+                run.ok(rule_id, c, ONLY_21_OK[fi.id])
+                continue
+            guarded = _version_test(norm(iff.test)) or any(_version_test(norm(tt)) for tt, _pol, _ in guard_chain(iff))
+            if not guarded:
+                # the decision sits in a loop over a collection that an earlier version test EMPTIES for the other version:
+                #     if version == "2.0" or ...: xs = {}        for k, v in xs.items(): if <2.1-only test> ...
+                lp = getattr(iff, "parent", None)
+                while lp is not None and not isinstance(lp, (ast.For, ast.FunctionDef)):
+                    lp = getattr(lp, "parent", None)
+                if isinstance(lp, ast.For):
+                    coll = lp.iter
+                    while isinstance(coll, ast.Call) and isinstance(coll.func, ast.Attribute) and coll.func.attr in ("items", "keys", "values"):
+                        coll = coll.func.value
+                    if isinstance(coll, ast.Name):
+                        for e_ in body_walk(fi.node):
+                            if isinstance(e_, ast.If) and e_.lineno < lp.lineno and any(
+                                    _version_test(norm(d_)) and ("== '2.0'" in norm(d_) or "!= '2.1'" in norm(d_) or (
+                                        "_STIXBase20" in norm(d_) and not norm(d_).startswith("not "))) for d_ in (e_.test.values if isinstance(e_.test, ast.BoolOp) and isinstance(
+                                        e_.test.op, ast.Or) else [e_.test])) and any(
+                                    isinstance(a_, ast.Assign) and norm(a_.targets[0]) == coll.id and isinstance(a_.value, (ast.Dict, ast.List, ast.Tuple))
+                                    and not (a_.value.keys if isinstance(a_.value, ast.Dict) else a_.value.elts) for a_ in e_.body):
+                                guarded = True
+            run.check(guarded, rule_id, c,
+                      "%s serves both spec versions and decides by a STIX 2.1-only mechanism (%s) without a test of the version in "
+                      "force: content handled as STIX 2.0 gets the 2.1 escape hatch" % (fi.qualname, ", ".join(marks)),
+                      file=fi.module.relpath, line=iff.lineno, function=fi.qualname,
+                      expected="a guard on the version in force around the test", found=short(iff.test, 100))
+    if n < 4:
+        raise AnalysisError("fewer than 4 decisions by 2.1-only mechanisms found in version-agnostic code (%d)" % n)
 
 
 def rule_detect(ctx):
